@@ -21,7 +21,7 @@ RULE = ("all labelled graphs on <= 4 (quick) / <= 5 (thorough) vertices x all ac
 ASSUMPTIONS = ["z3 decides the posted aux-variable program correctly (SAT answers are re-validated by M-SOLVE, UNSAT answers are trusted)",
                "primitive route: stand-in semantics of graph-active-vertices-connected = induced-subgraph connectivity"]
 REQUIRED = ["avc.pointwise", "avc.oracle.valid", "avc.oracle.invalid", "avc.acyclic", "avc.primitive", "avc.grid", "avc.form.neg",
-            "avc.form.expr", "avc.form.const", "avc.accepted_set_solves", "msolve.model_checked", "mwire.exchanges", "avc.random_graphs", "avc.graph_reused_after_add_edge",
+            "avc.form.expr", "avc.form.const", "avc.accepted_set_solves", "msolve.model_checked", "mwire.exchanges", "avc.random_graphs", "avc.graph_reused_after_add_edge", "avc.graphs_with_self_loops", "avc.line_graph_objects",
             "avc.one_vertex", "avc.disconnected_graph", "avc.winding_grids", "avc.long_paths"]
 
 
@@ -266,6 +266,37 @@ def run(ctx):
         ctx.count("avc.random_graphs")
         if k == 0:
             ctx.sample({"n": n, "edges": edges, "acyclic": acyclic, "patterns": pats[:3]})
+    # graphs with self-loops (connectivity ignores them; acyclic=True is not judged: 'tree' with a loop is not defined by the statement)
+    # and Graph objects that come out of Graph.line_graph() instead of add_edge
+    for k in range(6 if not thorough else 80):
+        n, edges = random_graph(rng, 6)
+        e2 = D.with_loops(rng, n, edges)
+        g = D.mk_graph(n, e2)
+        prim = rng.random() < 0.3
+
+        def post(s, act, g=g, prim=prim):
+            graph.active_vertices_connected(s, act, g, use_graph_primitive=prim)
+
+        with ctx.guard(300):
+            D.pointwise(ctx, "avc", n, post, oracle(n, edges, False), D.patterns_around(rng, n, edges, None, 6) + [tuple([1] * n)],
+                        backend=(be if prim else None), forms=("var",),
+                        desc={"n": n, "edges": [list(e) for e in e2], "acyclic": False, "primitive": prim, "self_loops": True}, rng=rng)
+        ctx.count("avc.graphs_with_self_loops")
+    for k in range(6 if not thorough else 80):
+        r = D.line_graph_object(rng)
+        if r is None:
+            ctx.count("avc.line_graph_object_disagrees")
+            continue
+        g, n, edges = r
+        acyclic = rng.random() < 0.5
+
+        def post(s, act, g=g, acyclic=acyclic):
+            graph.active_vertices_connected(s, act, g, acyclic=acyclic)
+
+        with ctx.guard(300):
+            D.pointwise(ctx, "avc", n, post, oracle(n, edges, acyclic), D.patterns_around(rng, n, edges, None, 6) + [tuple([1] * n)], forms=("var",),
+                        desc={"n": n, "edges": [list(e) for e in edges], "acyclic": acyclic, "primitive": False, "from_line_graph": True}, rng=rng)
+        ctx.count("avc.line_graph_objects")
     # histories: the same Graph object is used, extended by add_edge, and used again
     for g, n, edges, new in D.grown_graphs(rng, 3 if not thorough else 40):
         acyclic = rng.random() < 0.5
